@@ -522,3 +522,55 @@ func runE5(c *core.Ctx) {
 		c.Bad(cn, setPos, "after the inner decode the cursor is moved to the end of the skipped span without consulting the decoder's own position: when the fast skipper frames `1 2 3` as one span only the first value is returned and the rest of the span is dropped (the stream then ends with a clean io.EOF)")
 	}
 }
+
+// U4: chunk arithmetic takes an index, not a count. The chunked containers map a slot number i
+// to (chunk i/CAP-1, offset i%CAP). The same arithmetic applied to a count (size, len) is off
+// by one exactly when the count is a multiple of the chunk size: size%CAP is 0 for a full last
+// chunk.
+
+func init() {
+	register(&core.Rule{ID: "U4", Min: 6,
+		Doc: "Chunk arithmetic in package ast is applied to indexes only: every `X % _DEFAULT_NODE_CAP` and `X / _DEFAULT_NODE_CAP` has an index as X (an identifier bound to a slot number), never a count (`.size`, `len(...)`, `.Len()`, `.Cap()`): a count modulo the chunk size is 0 for a completely filled last chunk, so the last 16 slots of objects with 32, 48, ... members are skipped.",
+		Run: runU4})
+}
+
+func runU4(c *core.Ctx) {
+	p := c.Prog
+	pk := p.Pkg("ast")
+	if pk == nil {
+		c.Undecided("ast", token.NoPos, "package not loaded")
+		return
+	}
+	n := 0
+	for _, fd := range core.FuncDecls(pk) {
+		if fd.Body == nil || strings.HasSuffix(p.Fset.Position(fd.Pos()).Filename, "_test.go") {
+			continue
+		}
+		fn := core.FuncName(pk, fd)
+		k := 0
+		ast.Inspect(fd.Body, func(nd ast.Node) bool {
+			be, ok := nd.(*ast.BinaryExpr)
+			if !ok || (be.Op != token.REM && be.Op != token.QUO) {
+				return true
+			}
+			if o, ok := p.ExprObj(be.Y).(*types.Const); !ok || o.Name() != "_DEFAULT_NODE_CAP" {
+				return true
+			}
+			n++
+			k++
+			cn := fn + "/chunk-arith#" + itoa(k)
+			c.Analysed(fn)
+			xs := exprStr(be.X)
+			isCount := strings.HasSuffix(xs, ".size") || strings.HasPrefix(xs, "len(") || strings.HasSuffix(xs, ".Len()") || strings.HasSuffix(xs, ".Cap()") || strings.HasPrefix(xs, "cap(")
+			if isCount {
+				c.Bad(cn, be.Pos(), "`%s %s _DEFAULT_NODE_CAP` applies the chunk arithmetic to a count: it is 0 (respectively one chunk too far) when the count is a multiple of the chunk size, so a completely filled last chunk is treated as empty", xs, be.Op)
+			} else {
+				c.OK(cn, be.Pos(), "chunk arithmetic on index %s", xs)
+			}
+			return true
+		})
+	}
+	if n < 6 {
+		c.Undecided("ast/chunk-arith", token.NoPos, "only %d chunk computations found", n)
+	}
+}
